@@ -214,6 +214,8 @@ class CallMixin:
             self.st.ghost.setdefault("host_owned", [])
             if not any(h.eq(v) for h in self.st.ghost["host_owned"]):
                 self.st.ghost["host_owned"].append(v)
+                for ad in self.st.ghost.get("agent_dicts", []):
+                    self.ctx.assume(v != ad)       # a frame's own dictionaries are never the agent's tables
         elif attr == "f_back":
             self.ctx.assume(z3.Or(Val.is_VNone(v), z3.And(Val.is_VRef(v), Val.r(v) > 0, Val.r(v) < 1_000_000,
                                                           z3.Select(self.st.typeof, Val.r(v)) == t.id("frame"))))
